@@ -1,9 +1,164 @@
 /-
-Helper lemmas for C05 (arithmetic of quantities): SI homomorphism of every operator method.
+Helper lemmas for C05 (arithmetic of quantities): every operator method of the model is a
+homomorphism onto the SI-level specification (`Sim`), for all valid unit systems.
 -/
 import Strengths.Proofs.Units
 import Strengths.Model.UnitsArith
+import Mathlib.Tactic.Ring
 
 namespace Strengths
+set_option linter.unusedSimpArgs false
+set_option linter.unusedVariables false
+
+/-! ### scale algebra -/
+
+theorem convFactor_mul_siFactor (U : Sys) {V : Sys} (hV : V.valid = true) (d : Dim) :
+    convFactor U V d * siFactor V d = siFactor U d := by
+  rw [convFactor_eq_div]; have := siFactor_ne hV d; field_simp
+
+theorem convFactor_ne {U V : Sys} (hU : U.valid = true) (hV : V.valid = true) (d : Dim) : convFactor U V d ≠ 0 :=
+  ne_of_gt (convFactor_pos hU hV d)
+
+theorem siFactor_add {U : Sys} (hU : U.valid = true) (a b : Dim) :
+    siFactor U (a.add b) = siFactor U a * siFactor U b := by
+  simp only [siFactor, Dim.add]
+  rw [zpow_add₀ (Sys.sSpace_ne hU), zpow_add₀ (Sys.sTime_ne hU), zpow_add₀ (Sys.sQty_ne hU)]
+  ring
+
+theorem siFactor_neg (U : Sys) (a : Dim) : siFactor U a.neg = (siFactor U a)⁻¹ := by
+  simp only [siFactor, Dim.neg, zpow_neg, mul_inv]
+
+theorem siFactor_add_neg {U : Sys} (hU : U.valid = true) (a b : Dim) :
+    siFactor U (a.add b.neg) = siFactor U a / siFactor U b := by
+  rw [siFactor_add hU, siFactor_neg, div_eq_mul_inv]
+
+theorem Dim.add_neg_eq_sub (a b : Dim) : a.add b.neg = a.sub b := by
+  simp [Dim.add, Dim.neg, Dim.sub, sub_eq_add_neg]
+
+theorem pyMod_mul_right (a b : Rat) {f : Rat} (hf : f ≠ 0) : pyMod (a * f) (b * f) = pyMod a b * f := by
+  unfold pyMod
+  rw [mul_div_mul_right a b hf]
+  ring
+
+/-! ### the SI value of what a method computes, in terms of the SI values of its operands
+(`U` is the system of `self`, valid; `V` the system of the other operand) -/
+
+theorem add_conv {U : Sys} (hU : U.valid = true) (V : Sys) (d : Dim) (a b : Rat) :
+    a * siFactor U d + b * siFactor V d = (a + b * convFactor V U d) * siFactor U d := by
+  rw [add_mul, mul_assoc, convFactor_mul_siFactor V hU]
+
+theorem sub_conv {U : Sys} (hU : U.valid = true) (V : Sys) (d : Dim) (a b : Rat) :
+    a * siFactor U d - b * siFactor V d = (a + -(b * convFactor V U d)) * siFactor U d := by
+  rw [add_mul, neg_mul, mul_assoc, convFactor_mul_siFactor V hU, sub_eq_add_neg]
+
+theorem mul_conv {U : Sys} (hU : U.valid = true) (V : Sys) (d d' : Dim) (a b : Rat) :
+    a * siFactor U d * (b * siFactor V d') = a * (b * convFactor V U d') * siFactor U (d.add d') := by
+  rw [siFactor_add hU, ← convFactor_mul_siFactor V hU d']; ring
+
+theorem div_conv {U V : Sys} (hU : U.valid = true) (hV : V.valid = true) (d d' : Dim) (a b : Rat) :
+    a * siFactor U d / (b * siFactor V d') = a * (1 / b * convFactor V U d'.neg) * siFactor U (d.add d'.neg) := by
+  rw [siFactor_add_neg hU, convFactor_eq_div, siFactor_neg, siFactor_neg]
+  have := siFactor_ne hU d'
+  have := siFactor_ne hV d'
+  by_cases hb : b = 0
+  · simp [hb]
+  · field_simp
+
+theorem pyMod_conv {U : Sys} (hU : U.valid = true) (V : Sys) (d : Dim) (a b : Rat) :
+    pyMod (a * siFactor U d) (b * siFactor V d) = pyMod a (b * convFactor V U d) * siFactor U d := by
+  rw [← convFactor_mul_siFactor V hU d, ← mul_assoc, pyMod_mul_right _ _ (siFactor_ne hU d)]
+
+theorem pyMod_conv' {U : Sys} (hU : U.valid = true) (V : Sys) (d : Dim) (a b : Rat) :
+    pyMod (b * siFactor V d) (a * siFactor U d) = pyMod (b * convFactor V U d) a * siFactor U d := by
+  rw [← convFactor_mul_siFactor V hU d, ← mul_assoc, pyMod_mul_right _ _ (siFactor_ne hU d)]
+
+/-! ### simulation relation -/
+
+/-- the invariant of `UnitsSystem`: every quantity carries a valid system -/
+def Operand.wf : Operand → Prop
+  | .num _ => True
+  | .val x => x.u.sys.valid = true
+  | .arr x => x.u.sys.valid = true
+
+/-- the model's outcome `a` and the SI-level outcome `b` agree: both raise, or `b` is the SI reading of `a` -/
+def Sim (a : Res Operand) (b : Res SIVal) : Prop :=
+  match a with
+  | .ok r => b = .ok (siOf r) ∧ r.wf
+  | .error _ => ∃ e, b = .error e
+
+macro "si_simp" : tactic => `(tactic| simp [UVal.dunder, UVal.rdunder, UArr.dunder, UArr.rdunder, Operand.inv, Operand.neg,
+  Operand.abs, negRes, UVal.invert, UArr.invert, Units.invert, numOp, siNeg, siAbs, siInv, Pay.map,
+  UVal.sum, UVal.product, UVal.modulo, UVal.rmodulo, UArr.sum, UArr.product,
+  UArr.modulo, UArr.rmodulo, siBin, siOf, Sim, BinOp.needsNonZero, BinOp.additive, qtyOk, Pay.zip, Pay.hasZero, ratOp,
+  Operand.wf, UVal.si, UArr.si, UVal.toSys, UArr.toSys, Units.multiply, siFactor_ne, convFactor_ne,
+  add_conv, sub_conv, mul_conv, div_conv, pyMod_conv, pyMod_conv', pyMod_mul_right, Dim.add_neg_eq_sub,
+  siFactor_neg, convFactor_self, List.zipWith_map_right, List.zipWith_map_left, *])
+
+macro "si_done" : tactic => `(tactic| all_goals (try (intros; first | (simp; done) | (left; ring_nf; done) | (ring_nf; done) | (field_simp; done) | (field_simp; ring_nf; done))))
+
+theorem mul_conv2 {U : Sys} (hU : U.valid = true) (V : Sys) (d d' : Dim) (b : Rat) :
+    siFactor U d * b * siFactor V d' = b * convFactor V U d' * siFactor U (d.add d') := by
+  rw [siFactor_add hU, ← convFactor_mul_siFactor V hU d']; ring
+
+theorem UVal.dunder_sim (op : BinOp) (x : UVal) (v : Operand) (hx : x.u.sys.valid = true) (hv : v.wf) :
+    Sim (x.dunder op v) (siBin op (siOf (.val x)) (siOf v)) := by
+  cases v with
+  | num n =>
+    cases op
+    case div | mod => by_cases h0 : n = 0 <;> si_simp <;> si_done
+    all_goals (si_simp <;> si_done)
+  | val y =>
+    have hy : y.u.sys.valid = true := hv
+    cases op
+    case div | mod => by_cases h : x.u.dim = y.u.dim <;> by_cases h0 : y.v = 0 <;> si_simp <;> si_done
+    case mul => si_simp <;> si_done
+    all_goals (by_cases h : x.u.dim = y.u.dim <;> si_simp <;> si_done)
+  | arr y =>
+    have hy : y.u.sys.valid = true := hv
+    cases op
+    case div | mod => by_cases h : x.u.dim = y.u.dim <;> by_cases h0 : 0 ∈ y.vs <;> si_simp <;> si_done
+    case mul => si_simp <;> si_done
+    all_goals (by_cases h : x.u.dim = y.u.dim <;> si_simp <;> si_done)
+
+theorem UArr.dunder_sim (op : BinOp) (x : UArr) (v : Operand) (hx : x.u.sys.valid = true) (hv : v.wf) :
+    Sim (x.dunder op v) (siBin op (siOf (.arr x)) (siOf v)) := by
+  cases v with
+  | num n =>
+    cases op
+    case div | mod => by_cases h0 : n = 0 <;> si_simp <;> si_done
+    all_goals (si_simp <;> si_done)
+  | val y =>
+    have hy : y.u.sys.valid = true := hv
+    cases op
+    case div | mod => by_cases h : x.u.dim = y.u.dim <;> by_cases h0 : y.v = 0 <;> si_simp <;> si_done
+    case mul =>
+      si_simp; intro a _; left
+      rw [siFactor_add hx, ← convFactor_mul_siFactor y.u.sys hx y.u.dim]; ring
+    all_goals (by_cases h : x.u.dim = y.u.dim <;> si_simp <;> si_done)
+  | arr y =>
+    have hy : y.u.sys.valid = true := hv
+    cases op
+    case div | mod =>
+      by_cases h : x.u.dim = y.u.dim <;> by_cases hl : x.vs.length = y.vs.length <;> by_cases h0 : 0 ∈ y.vs <;>
+        si_simp <;> si_done
+    case mul => by_cases hl : x.vs.length = y.vs.length <;> si_simp <;> si_done
+    all_goals (by_cases h : x.u.dim = y.u.dim <;> by_cases hl : x.vs.length = y.vs.length <;> si_simp <;> si_done)
+
+theorem UVal.rdunder_sim (op : BinOp) (x : UVal) (n : Rat) (hx : x.u.sys.valid = true) :
+    Sim (x.rdunder op (.num n)) (siBin op (.num n) (siOf (.val x))) := by
+  cases op
+  case div | mod => by_cases h0 : x.v = 0 <;> si_simp <;> si_done
+  all_goals (si_simp <;> si_done)
+
+theorem UArr.rdunder_sim (op : BinOp) (x : UArr) (n : Rat) (hx : x.u.sys.valid = true) :
+    Sim (x.rdunder op (.num n)) (siBin op (.num n) (siOf (.arr x))) := by
+  cases op
+  case div | mod => by_cases h0 : 0 ∈ x.vs <;> si_simp <;> si_done
+  all_goals (si_simp <;> si_done)
+
+theorem numOp_sim (op : BinOp) (a b : Rat) : Sim (numOp op a b) (siBin op (.num a) (.num b)) := by
+  cases op
+  case div | mod => by_cases h0 : b = 0 <;> si_simp
+  all_goals si_simp
 
 end Strengths
